@@ -574,6 +574,48 @@ class Interp:
                 self.model.prefix_names[n] = M.p_norm([(p.base, Fraction(p.exponent))])
         return None, ABSENT, None, {"new_units": len(new)}
 
+
+    # further declaration entry points ------------------------------------
+    def op_dim_unit(self, op, prepare, prepared=None):
+        """Dimension.unit(name, symbol) (the usual way shipped modules define units)."""
+        if prepare:
+            return self._args(op, ("dim", "dim"))
+        (d, md), = prepared
+        u = d.unit(op["name"], op["symbol"])
+        self._register_token(u)
+        nf = self.model.define_unit(op["name"], op["symbol"], md) if md is not None else None
+        return "unit", u, nf, {}
+
+    def op_scale(self, op, prepare, prepared=None):
+        if prepare:
+            return self._args(op, ("dim", "dim"), ("zero", "qty"))
+        (d, md), (z, mz) = prepared
+        u = d.scale(z, op["name"], op["symbol"])
+        self._register_token(u)
+        nf = self.model.define_unit(op["name"], op["symbol"], md) if md is not None else None
+        return "unit", u, nf, {}
+
+    def op_dim_derive(self, op, prepare, prepared=None):
+        if prepare:
+            return self._args(op, ("dim", "dim"))
+        (d, md), = prepared
+        kw = {"name": op["name"]}
+        if op.get("symbol"):
+            kw["symbol"] = op["symbol"]
+        r = self.L.Dimension.derive(d, **kw)
+        if md is not None:
+            self.model.dims[op["name"]] = md
+        return "dim", r, md, {}
+
+    def op_dim_define(self, op, prepare, prepared=None):
+        if prepare:
+            return []
+        r = self.L.Dimension.define(op["name"], op["symbol"])
+        self.model.fundamental.append(op["name"])
+        md = (0,) * (len(self.model.fundamental) - 1) + (1,)
+        self.model.dims[op["name"]] = md
+        return "dim", r, md, {}
+
     # dimension and prefix algebra ---------------------------------------
     def op_d_bin(self, op, prepare, prepared=None):
         if prepare:
@@ -750,12 +792,9 @@ class C01Clauses(Clauses):
 
 def make_clauses(prop, interp):
     table = {"C01": [C01Clauses]}
-    try:
-        from sim import clauses_a
+    from sim import clauses_a
 
-        table.update(clauses_a.TABLE)
-    except ImportError:
-        pass
+    table.update(clauses_a.TABLE)
     return [c(interp) for c in table.get(prop, [])]
 
 
